@@ -291,6 +291,14 @@ class SuitNull(SuitObject):
             raise ValueError(f"Unable to create NULL from {value}")
         super().__init__(value)
 
+    @classmethod
+    def from_cbor(cls, cbstr: bytes) -> SuitNull:
+        """Restore SUIT representation from passed CBOR."""
+        # Raw byte strings are passed here as well: only the null item itself (no trailing data) is a NULL.
+        if cbstr != b"\xf6":
+            raise ValueError(f"Unable to create NULL from {cbstr.hex()}")
+        return cls(None)
+
 
 class SuitInt(SuitObject):
     """Representation of int type."""
@@ -300,6 +308,16 @@ class SuitInt(SuitObject):
         if (value is not None) and (not isinstance(value, int)):
             raise ValueError(f"Unable to create int from {value}")
         super().__init__(value)
+
+    @classmethod
+    def from_cbor(cls, cbstr: bytes) -> SuitInt:
+        """Restore SUIT representation from passed CBOR."""
+        obj = super().from_cbor(cbstr)
+        # Raw byte strings are passed here as well: accept them only if they are exactly the encoded value,
+        # otherwise the content would be silently re-encoded (shortest form, trailing data dropped).
+        if cls.serialize_cbor(obj.value) != cbstr:
+            raise ValueError(f"Unable to create int from {cbstr.hex()}")
+        return obj
 
 
 class SuitUint(SuitInt):
